@@ -116,6 +116,7 @@ def _run_impl(tmp, file0, tape, ops, nobj, spelled):
 
     set_file(file0)
     objs = [KeyFile(spelled or path) for _ in range(nobj)]
+    depth = [0] * nobj               # contexts open per object, counted by the harness (an `enter` that returned minus the exits made)
     obs, done = [], []
     with Tape(tape) as tp:
         for op in ops:
@@ -127,6 +128,7 @@ def _run_impl(tmp, file0, tape, ops, nobj, spelled):
             if k == "enter":
                 try:
                     objs[op["i"]].__enter__()
+                    depth[op["i"]] += 1
                 except EncryptionError:
                     out = {"err": "encryption"}
                 except OSError:
@@ -134,8 +136,9 @@ def _run_impl(tmp, file0, tape, ops, nobj, spelled):
                 except Exception as e:  # noqa
                     out = {"err": "other:" + type(e).__name__}
             elif k == "exit":
-                if objs[op["i"]]._KeyFile__refcount <= 0:
+                if depth[op["i"]] <= 0:
                     continue
+                depth[op["i"]] -= 1
                 if op.get("exc"):
                     err = ValueError("raised inside the with block")
                     objs[op["i"]].__exit__(type(err), err, None)
@@ -165,6 +168,7 @@ def _run_impl(tmp, file0, tape, ops, nobj, spelled):
                         probes[label] = "other:" + type(e).__name__
             elif k == "new":
                 objs.append(KeyFile(spelled or path))
+                depth.append(0)
             elif k == "write":
                 set_file({"data": op["data"]})
             elif k == "delete":
@@ -173,7 +177,7 @@ def _run_impl(tmp, file0, tape, ops, nobj, spelled):
                 set_file("unwritable")
             state = {"file": get_file(), "objs": [{"key": (o._KeyFile__key.hex() if o._KeyFile__key is not None else None),
                                                    "refcount": o._KeyFile__refcount} for o in objs]}
-            obs.append({"out": out, "state": state, "probes": probes})
+            obs.append({"out": out, "state": state, "probes": probes, "depth": list(depth)})
             done.append(op)
     return obs, done
 
@@ -215,6 +219,12 @@ def oracle(res, case, file0, ops, obs):
             leaked = sorted(p for p, r in ob.get("probes", {}).items() if r == "ok")
             if leaked:
                 res.violate("C07:used-while-closed", "encryption or decryption of an empty value succeeded outside an open key context", dict(where, probes=leaked))
+        # by the harness's own count of open contexts (not the object's): nothing is held once every context has closed, and nothing works then
+        for j, o in enumerate(st["objs"]):
+            if j < len(ob.get("depth", [])) and ob["depth"][j] == 0 and o["key"] not in (None, ""):
+                res.violate("C07:key-retained", "key material retained after the outermost context closed (contexts counted by the caller)", where)
+        if k == "use" and op["i"] < len(ob.get("depth", [])) and ob["depth"][op["i"]] == 0 and isinstance(out, dict) and "key" in out:
+            res.violate("C07:used-while-closed", "encryption succeeded outside an open key context (contexts counted by the caller)", where)
         for o in st["objs"]:
             if o["refcount"] == 0 and o["key"] not in (None, ""):
                 res.violate("C07:key-retained", "key material retained after the outermost context closed (or after a failed open)", where)
